@@ -23,9 +23,15 @@ func c19PanicValue(kind int) any {
 		return "c19 string"
 	case 3:
 		return c19Struct{1, 2}
+	case 5:
+		return errC19Wrapped
 	}
 	return http.ErrAbortHandler
 }
+
+// an ordinary error value that merely wraps the abort sentinel: it is not the
+// sentinel, so it must be handled like any other panic value
+var errC19Wrapped = &c15URLError{http.ErrAbortHandler}
 
 func c19Same(kind int, got any) bool {
 	switch kind {
@@ -40,6 +46,9 @@ func c19Same(kind int, got any) bool {
 	case 3:
 		v, ok := got.(c19Struct)
 		return ok && v == c19Struct{1, 2}
+	case 5:
+		e, ok := got.(error)
+		return ok && e == error(errC19Wrapped)
 	}
 	e, ok := got.(error)
 	return ok && e == http.ErrAbortHandler
@@ -52,7 +61,7 @@ func c19Same(kind int, got any) bool {
 func HarnessC19Recover() {
 	kind := nondetChoice("kind", 4)     // unary, client stream, server stream, bidi
 	proto := nondetChoice("proto", 3)   // connect, grpc, grpc-web
-	pv := nondetChoice("value", 5)      // nil, error, string, struct, abort sentinel
+	pv := nondetChoice("value", 6)      // nil, error, string, struct, abort sentinel, error wrapping the sentinel
 	point := nondetChoice("point", 3)   // 0 = before anything, 1 = after one send (streams), 2 = no panic
 	pos := nondetChoice("position", 3)  // recover interceptor before / between / after two others
 	if kind <= 1 && point == 1 {
